@@ -9,7 +9,7 @@ for mp in sorted(glob.glob(os.path.join(ROOT, "seeded", "*", "meta.json"))):
     notes = os.path.join(os.path.dirname(mp), "notes.md")
     what = m.get("summary", "")
     rows.append((sid, m.get("breaks_property", ""), "yes" if m.get("confirmed") else "NO", what,
-                 ", ".join(m.get("detected_by", [])) or "-", m.get("needs", "")))
+                 (", ".join(m.get("detected_by", [])) or "-") + (" (not counted: see meta.json)" if m.get("not_counted") else ""), m.get("needs", "")))
 out = ["# Seeded changes (sensitivity experiments)\n",
        "Each directory holds one change to uber-go/dig that breaks a listed property while the\n"
        "library still compiles and its own test-suite (766 stable tests) stays green:\n"
